@@ -473,6 +473,10 @@ func init() {
 					op(1, withEF(withTF(L(0, 1, 4, 5, 30, 1, 0), tfAck), efNeverAof)), op(1, withTF(L(0, 1, 5, 5, 30, 1, 0), tfAck)),
 					op(0, U(0, 1, 1)), op(1, U(0, 1, 3)), tick(3 * sec)}},
 				{Name: "ack-required-requests-unacknowledged", Cfg: hapi.Config{FastKeys: 1, Concurrent: 1, MissingAcks: 1}, Depth: d, Drain: true, DrainFor: 70 * sec, MaxStates: 400000, Alphabet: c03AckAlphabet()},
+				// from a queue of 3 / 9 live waiters: the head, the tail and a middle waiter are cancelled (also twice: an
+				// answered waiter stays in the queue behind a live head until the head goes), the holder leaves, newcomers queue
+				{Name: "replies-ramp-3-waiters", Cfg: cfg, Ramp: rampWaiters(3, false), Alphabet: rampWaitAlphabet(3), Depth: 3, Drain: true, DrainFor: 70 * sec},
+				{Name: "replies-ramp-9-waiters-prio", Cfg: cfg, Ramp: rampWaiters(9, true), Alphabet: rampWaitAlphabet(9), Depth: 3, Drain: true, DrainFor: 70 * sec},
 			}, Oracles: []SeqOracle{SeqOracleC03, OracleFullVsMem("C03")}}
 		},
 		enum: func(q bool) []*EnumPlan {
